@@ -180,4 +180,112 @@ theorem uncompress_fromUncompressed_allDefault_fails (dflt : ν) (d : Nat) (dims
       simp [orMerge, uncRows]
 
 end Unc
+
+/-! ## §3  dictionary form and YAML -/
+
+section Yaml
+variable {κ ν : Type}
+
+/-- `dict2fiber(fiber2dict(t))` rebuilds exactly the stored tree — every depth (0 = a
+    rank-0 payload), every coordinate type (tuples included), explicit defaults and empty
+    sub-fibers included. -/
+theorem dict_roundtrip (d : Nat) (t : Tree κ ν d) : dict2fiber d (fiber2dict d t) = some t :=
+  dict2fiber_fiber2dict d t
+
+section
+variable [LT κ] [DecidableRel (α := κ) (· < ·)] [DecidableEq κ] [DecidableEq ν]
+
+/-- … and the rebuilt tree is `==` to the original when both sides have the same leaf
+    default.  (The dictionary carries no default: the rebuilt fibers have default 0.  Gap:
+    with a non-zero default `==` can fail, see the `example` below.) -/
+theorem dict_roundtrip_equal_partial (dflt : ν) (d : Nat) (t : Tree κ ν d) :
+    ∃ r, dict2fiber d (fiber2dict d t) = some r ∧ eqB dflt dflt d r t = true ∧ eqB dflt dflt d t r = true :=
+  ⟨t, dict2fiber_fiber2dict d t, eqB_refl dflt d t, eqB_refl dflt d t⟩
+
+/-- Tensor dump → (abstracted) YAML text → `Tensor.fromYAMLfile`, PARTIAL.  If no coordinate
+    and no shape entry is a tuple, the reloaded tensor has the same rank ids, the same shape,
+    the same stored tree, and compares `==` under a common default; its name is the original
+    one for a rank-0 tensor and `""` otherwise.
+    Gaps w.r.t. the property: (1) tuple coordinates — `tensor_yaml_tuple_fails`;
+    (2) the name of a tensor of rank ≥ 1 is dropped — visible in the statement;
+    (3) the default is not carried — `loadedLeafDefault`, so `==` is only claimed when the
+    original's default is the one the loader installs. -/
+theorem tensor_yaml_roundtrip_partial (plain : κ → Bool) (dflt : ν) {d : Nat} (t : TRep κ ν d)
+    (hc : allCoords plain d t.root = true) (hs : t.shape.all plain = true) :
+    ∃ r, tensorYamlRoundtrip plain t = some r ∧ r.rankIds = t.rankIds ∧ r.shape = t.shape ∧
+         r.root = t.root ∧ r.name = (if d = 0 then t.name else "") ∧
+         tensorEqB dflt dflt r t = true ∧ tensorEqB dflt dflt t r = true := by
+  refine ⟨{ rankIds := t.rankIds, shape := t.shape, name := (if d = 0 then t.name else ""), root := t.root },
+    ?_, rfl, rfl, rfl, rfl, ?_, ?_⟩
+  · unfold tensorYamlRoundtrip yamlText tensorLoad tensorDump
+    simp only [hc, hs, Bool.and_self, if_true, dict2fiber_fiber2dict]
+  · simp [tensorEqB, eqB_refl]
+  · simp [tensorEqB, eqB_refl]
+
+/-- rank-0 tensors and unnamed tensors round-trip with their name -/
+theorem tensor_yaml_name_kept (plain : κ → Bool) {d : Nat} (t : TRep κ ν d) (r : TRep κ ν d)
+    (h : tensorYamlRoundtrip plain t = some r) (hn : d = 0 ∨ t.name = "") : r.name = t.name := by
+  unfold tensorYamlRoundtrip yamlText tensorLoad tensorDump at h
+  split at h
+  · rename_i x hx
+    split at hx
+    · cases hx
+      simp only [dict2fiber_fiber2dict] at h
+      cases h
+      rcases hn with hd | hn
+      · simp [hd]
+      · by_cases hd : d = 0 <;> simp [hd, hn]
+    · cases hx
+  · cases h
+
+/-- gap (2) is real: for rank ≥ 1 the reloaded name is always `""` -/
+theorem tensor_yaml_name_dropped (plain : κ → Bool) {d : Nat} (t r : TRep κ ν (d + 1))
+    (h : tensorYamlRoundtrip plain t = some r) : r.name = "" := by
+  unfold tensorYamlRoundtrip yamlText tensorLoad tensorDump at h
+  split at h
+  · rename_i x hx
+    split at hx
+    · cases hx
+      simp only [dict2fiber_fiber2dict] at h
+      cases h
+      rfl
+    · cases hx
+  · cases h
+
+/-- gap (1) is real: a tuple coordinate (or tuple shape entry) makes the load fail -/
+theorem tensor_yaml_tuple_fails (plain : κ → Bool) {d : Nat} (t : TRep κ ν d)
+    (h : allCoords plain d t.root = false ∨ t.shape.all plain = false) :
+    tensorYamlRoundtrip plain t = none := by
+  unfold tensorYamlRoundtrip yamlText
+  rcases h with h | h <;> simp [h, tensorDump]
+
+/-- `Fiber.dump` → text → `Fiber.fromYAMLfile`, PARTIAL (same gaps (1) and (3)). -/
+theorem fiber_yaml_roundtrip_partial (plain : κ → Bool) (dflt : ν) (d : Nat) (t : Tree κ ν (d + 1))
+    (hc : allCoords plain (d + 1) t = true) :
+    fiberYamlRoundtrip plain d t = some t ∧ eqB dflt dflt (d + 1) t t = true := by
+  unfold fiberYamlRoundtrip
+  simp only [hc, if_true, dict2fiber_fiber2dict, eqB_refl, and_self]
+
+end
+
+/-- the fiber `Fiber([2], [0])` -/
+def witnessStoredZero : Tree Nat Int 1 := ([(2, (0 : Int))] : List (Nat × Int))
+
+/-- gap (3) is real: a fiber with default 7 that stores a 0 is not `==` to its reloaded copy,
+    whose default is 0 (both directions). -/
+theorem default_lost_witness :
+    eqB (7 : Int) 0 1 witnessStoredZero witnessStoredZero = false ∧
+    eqB (0 : Int) 7 1 witnessStoredZero witnessStoredZero = false := by
+  let z : Tree Nat Int 0 := (0 : Int)
+  have h7 : present (7 : Int) 0 witnessStoredZero = ([(2, z)] : Fib Nat (Tree Nat Int 0)) := rfl
+  have h0 : present (0 : Int) 0 witnessStoredZero = ([] : Fib Nat (Tree Nat Int 0)) := rfl
+  have e1 : orMerge ([(2, z)] : Fib Nat (Tree Nat Int 0)) ([] : Fib Nat (Tree Nat Int 0)) =
+      [(2, (Mask.A, some z, none))] := by rw [orMerge]; rfl
+  have e2 : orMerge ([] : Fib Nat (Tree Nat Int 0)) ([(2, z)] : Fib Nat (Tree Nat Int 0)) =
+      [(2, (Mask.B, none, some z))] := by rw [orMerge]; rfl
+  constructor
+  · rw [eqB_succ, h7, h0, e1]; rfl
+  · rw [eqB_succ, h7, h0, e2]; rfl
+
+end Yaml
 end Ft
